@@ -21,6 +21,15 @@ CHECKS = {
          "must have the width dictated by construction and every reachable comp must tile [0,size) consistently with smask.",
     note="Same bounds as C01. Trusted: width function of amc/gen/exprs.py and comps_ok of amc/ref/bv.py.",
     design="DESIGN.md section 3, C12"),
+ "C13": dict(
+    category="model_checking",
+    technique="explicit-state BFS over operation histories on pools of shared expression objects; invariant = fingerprints of pre-existing members unchanged; pickle round trip of every object reached",
+    text="From 5 root pools of deliberately shared objects, every history (depth 2 quick / 3 thorough) of ~40 operation kinds x all operand pairs is executed "
+         "on the real API; after every transition the width and the denotation (independent walker, 36 valuations) of every pre-existing member must be unchanged; "
+         "sign-flag writes are observed through enclosing sign-sensitive nodes. Every produced expression, mapper and MemoryMap is pickled, restored and compared.",
+    note="State = tuple of member fingerprints (sound for this property: it only observes width and denotation). Widening simplify may over-approximate the object it is applied to. "
+         "Trusted: amc/ref/bv.py walker.",
+    design="DESIGN.md section 3, C13"),
  "C08": dict(
     category="model_checking",
     technique="explicit-state exploration of write/copy/restruct/shift/merge histories on the real MemoryMap against a dict byte-store reference",
